@@ -378,11 +378,26 @@ impl<RW: QueueRW<T>, T> MultiQueue<RW, T> {
                 // we had actually seen a race. Doing it this way removes fences on the fast path
                 let seen_tag = read_cell.wraps.load(DepOrd);
                 if rm_tag(seen_tag) != wrap_valid_tag {
+                    let mut disconnected = false;
                     if self.writers.load(Relaxed) == 0 {
                         fence(Acquire);
                         if rm_tag(read_cell.wraps.load(Acquire)) != wrap_valid_tag {
-                            return Err((ptr::null(), TryRecvError::Disconnected));
+                            disconnected = true;
                         }
+                    }
+                    if !is_single {
+                        // On a shared stream a sibling consumer may have taken this
+                        // position since it was loaded, and a writer may then have
+                        // reused the slot. In that case the tag says nothing about
+                        // whether the stream is empty or finished: look again.
+                        fence(Acquire);
+                        if reader.load_count(Relaxed) != wrap_valid_tag {
+                            ctail_attempt = ctail_attempt.reload();
+                            continue;
+                        }
+                    }
+                    if disconnected {
+                        return Err((ptr::null(), TryRecvError::Disconnected));
                     }
                     return Err((&read_cell.wraps, TryRecvError::Empty));
                 }
